@@ -201,7 +201,16 @@ def translate_site(src_root, site):
             if isinstance(e, ast.IfExp): return min(order(x) for x in (e.body, e.orelse) if not (isinstance(x, ast.Constant) and x.value is None))
             if isinstance(e, ast.Call):
                 f = ast.unparse(e.func)
-                if f == "sorted": return 1
+                if f == "sorted":
+                    # canonical means: by the entry's name — the default order of (name, value) pairs / of strings, or an explicit key on the name
+                    kw = {k.arg: k.value for k in e.keywords}
+                    if set(kw) - {"key"}: raise Unsupported(f"sorted(…, {', '.join(sorted(set(kw) - {'key'}))}=…)")
+                    if "key" in kw:
+                        k = kw["key"]
+                        ok = isinstance(k, ast.Lambda) and len(k.args.args) == 1 and isinstance(k.body, ast.Subscript) and isinstance(k.body.value, ast.Name) \
+                            and k.body.value.id == k.args.args[0].arg and isinstance(k.body.slice, ast.Constant) and k.body.slice.value == 0
+                        return 1 if ok else 0
+                    return 1
                 if f in ("dict", "list", "tuple") and len(e.args) == 1: return order(e.args[0])
                 return 0
             if isinstance(e, (ast.DictComp, ast.ListComp, ast.GeneratorExp)) and len(e.generators) == 1: return order(e.generators[0].iter)
